@@ -39,13 +39,15 @@ func c08Gen(r *gen.Rng, tier string, idx int) interface{} {
 		c.CNF, c.N = gen.RandomCNF(r, gen.CNFOpts{MinVars: 2, MaxVars: 10, MaxLen: 4, Weird: false})
 	}
 	// explain.ParseCNF is line based and registers unit clauses against the declared variable count
-	var cnf [][]int
-	for _, cl := range c.CNF {
-		if len(cl) > 0 {
-			cnf = append(cnf, cl)
+	if r.Chance(11, 12) { // mostly without the empty clause, which makes every certificate valid at once
+		var cnf [][]int
+		for _, cl := range c.CNF {
+			if len(cl) > 0 {
+				cnf = append(cnf, cl)
+			}
 		}
+		c.CNF = cnf
 	}
-	c.CNF = cnf
 	if mv := MaxVarCNF(c.CNF); mv > c.N {
 		c.N = mv
 	}
